@@ -9,6 +9,15 @@ Oracle on the implementation (independent of the model), from the real output:
   * every other data-cell edge = the user's border_top / border_bottom / border_left / border_right at the cell's
     original position.
 Correspondence: per page, the Lean model's top/bottom grids and component overrides equal the observed styles.
+
+Section lists (df=[f0, …], rtf_body=[b0, …]; `gen_sections`): lists of 1, 2, 3, 4, 5, 6 sections — the one-element list
+included — with 0-row and 1-row sections in every position, per-section body borders, nested / flat / default header
+lists, footnote / source as table / paragraph / absent under every placement, on one page or with breaks inside sections;
+and the single 0-row frame.  Oracle (`oracle_multi`): first row, last row, the two page-boundary clauses per section, and
+the section joints as interior rows.  Correspondence: per (section, page of the section) the same `borders` model, with
+the page borders the model of the section loop (`Model.EncodeMulti.sectionDoc`, driver op `section_borders`) leaves to
+section i of n.  Theorems: lean/Props/C07encm.lean.  Known finding C07-empty-edge-section (first / last section without
+data rows): explained-deviation function `known_filter`, stored inputs corpus/C07/known-empty-edge-*.json.
 """
 from __future__ import annotations
 
@@ -20,18 +29,27 @@ MANIFEST = dict(
          "border_first on the first data row as documented, the closing style (body.border_last inside the table, "
          "page.border_last at its end) on the last data row or on the table-rendered footnote/source that ends the "
          "page, all other edges untouched at their original rows. Tied to the code by observation over the border × "
-         "header × footnote/source × placement × pages × strategy product, single- and multi-section.",
+         "header × footnote/source × placement × pages × strategy product, single-frame documents and section lists of every "
+         "length from one section up (Props/C07encm: the page borders go to the first / last section of the list, the "
+         "one-element list keeps both).",
     note="Column-header top border and footnote/source row emission are checked on the observation only; when the "
          "user's border_top row is longer than border_first the code lets a non-empty border_top of TABLE row 0 "
-         "override body.border_first (modelled; generated documents keep that row empty, see DESIGN.md C07).",
+         "override body.border_first (modelled; generated documents keep that row empty, see DESIGN.md C07). Open "
+         "known finding C07-empty-edge-section: a first / last section (or single frame) with 0 data rows leaves the "
+         "document's first / last table row without the page border (C07encm_witness; excused per case, nothing else "
+         "on those documents is).",
     technique="Lean 4 proof (update_cell algebra + finite flag split) + observation-level oracle and correspondence",
     design="7/C07",
 )
 
 RULE = ("border styles (incl. '' = none) for rtf_page.border_first/last and rtf_body.border_first/last × header mode × footnote/source "
         "(table, paragraph, absent) × placement × 1..many pages × strategies × per-cell user border matrices (full, or 2-3-row patterns recycled over the rows); plus "
-        "multi-section documents for the first/last clauses; non-trivial = ≥ 2 pages; distinct by the configuration "
-        "tuple and page sizes")
+        "multi-section documents for the first/last clauses; plus section lists of 1-6 sections (one-element list "
+        "df=[frame] included) × 0-row / 1-row / longer sections in every position × per-section body border_first/last × "
+        "nested / flat / default header lists × footnote/source (table, paragraph, absent) × placements × one page or "
+        "breaks inside sections, and the 0-row single frame, for the first-row / last-row / page-boundary / section-joint "
+        "clauses; non-trivial = ≥ 2 pages, or a section list of length 1 or ≥ 4 or with a 0-/1-row section; distinct by "
+        "the configuration tuple and page sizes")
 
 STYLES = ["single", "double", "thick", "dotted", "dashed"]
 
@@ -45,8 +63,12 @@ def code(style):
 class C07(layfamily.Family):
     prop, tag = "C07", "c07"
 
-    def ndocs(self, tier):
+    def nbase(self, tier):
         return 320 if tier == "quick" else 5000
+
+    def ndocs(self, tier):
+        # the base product + the section-list family (gen_sections)
+        return self.nbase(tier) + (288 if tier == "quick" else 3000)
 
     def gen_multi(self, rng, k):
         """multi-section document (list of frames): the first/last clauses, and section joints are interior rows"""
@@ -67,33 +89,187 @@ class C07(layfamily.Family):
                     placements=None)
         return spec, info
 
+    # ------------------------------------------------------------------ section lists (1, 2, 3, 4+ sections)
+    NSEC = [1, 2, 3, 1, 4, 2, 1, 5, 3, 1, 6, 2]
+
+    def gen_sections(self, rng, k):
+        """A document given as a LIST of sections (df=[…], rtf_body=[…]) of every length from one section up, with
+        0-row and 1-row sections in every position, per-section bodies (own border_first / border_last), header lists
+        in the nested, flat and default form, footnote / source as table, paragraph or absent under every placement, on
+        one page or with page breaks inside sections; every twelfth document is the single-frame form of a 0-row table
+        (df=<frame>).  Judged by the first-row, last-row and page-boundary clauses."""
+        if k % 12 == 11:
+            return self.gen_empty_plain(rng, k // 12)
+        nsec = self.NSEC[k % len(self.NSEC)]
+        edge = (k // 12) % 12       # 5: the last section has no rows; 6: the first; 7: one-row sections only
+        fk = ["absent", "table", "para"][(k // 2) % 3]
+        sk = ["absent", "absent", "table", "para"][(k // 3) % 4]
+        pl3 = ["last", "all", "first"]
+        placements = (rng.choice(pl3), pl3[(k // 6) % 3], pl3[(k // 18) % 3])
+        hmode = ["nested", "nested", "flat", "default", "nested-none"][k % 5]
+        one_page = (k // 4) % 2 == 0
+        nrow = 40 if one_page else rng.randint(6, 9)
+        frames, bodies, nested, sec_rows = [], [], [], []
+        base = 0
+        for sec in range(nsec):
+            r = rng.random()
+            n = 0 if r < 0.06 else 1 if r < 0.25 else rng.randint(2, 9 if one_page else 14)
+            if edge == 7:
+                n = 1
+            if (edge == 5 and sec == nsec - 1) or (edge == 6 and sec == 0):
+                n = 0
+            nd = rng.randint(1, 3)
+            frames.append(dict(cols=[f"COL{j}" for j in range(nd)],
+                               rows=[[f"r{base + i}c{j}" for j in range(nd)] for i in range(n)]))
+            body = dict(border_first=rng.choice(STYLES), border_last=rng.choice(STYLES))
+            if hmode != "default" and rng.random() < 0.3:
+                body["as_colheader"] = False
+            bodies.append(body)
+            hd = dict(text=[f"HD{sec}c{j}" for j in range(nd)])
+            r = rng.random()
+            if hmode == "nested-none" or r < 0.4:
+                nested.append([None])
+            elif r < 0.9:
+                nested.append([hd])
+            else:
+                nested.append([dict(text=[f"HD{sec}c0"], col_rel_width=[1]), hd])
+            sec_rows.append(n)
+            base += n
+        if hmode == "default":
+            headers = "default"        # the flat default list: an auto-populated header on the first section only
+        elif hmode == "flat":
+            headers = [dict(text=[f"HD0c{j}" for j in range(len(frames[0]["cols"]))])]
+        else:
+            headers = nested
+        pf, plast = rng.choice(STYLES), rng.choice(STYLES)
+        if k % 9 == 4:
+            pf = ""
+        if k % 9 == 7:
+            plast = ""
+        page = dict(nrow=nrow, border_first=pf, border_last=plast, page_title=placements[0],
+                    page_footnote=placements[1], page_source=placements[2])
+        spec = dict(kind="multi", df=frames, body=bodies, headers=headers, page=page,
+                    title=dict(text=["TTL0"]) if rng.random() < 0.3 else None,
+                    footnote=None if fk == "absent" else dict(text="FTNOTE", as_table=fk == "table"),
+                    source=None if sk == "absent" else dict(text="SRCTXT", as_table=sk == "table"))
+        info = dict(strategy="multi", gen="sections", header_mode="multi-" + hmode, n=base, model=False, page_by=None,
+                    subline_by=None, nsec=nsec, sec_rows=sec_rows, footnote=fk, source=sk, placements=list(placements),
+                    pf=pf, pl=plast, bf=str([b["border_first"] for b in bodies]),
+                    bl=str([b["border_last"] for b in bodies]), user=[], nrow=nrow)
+        return spec, info
+
+    def gen_empty_plain(self, rng, k):
+        """single-frame document (df=<frame>) whose frame has no rows: header row(s) and table-rendered footnote /
+        source are its only table rows"""
+        fk = ["table", "absent", "para"][k % 3]
+        sk = ["absent", "table", "para"][(k // 3) % 3]
+        hm = ["none", "default", "explicit", "no_colheader"][k % 4]
+        spec, info = laygen.gen_spec(rng, strategy="plain", n=0, nrow=rng.randint(6, 40), header_mode=hm, footnote=fk,
+                                     source=sk, long_rows=False, dividers=False)
+        pf, plast = rng.choice(STYLES), rng.choice(STYLES)
+        spec["page"]["border_first"] = pf
+        spec["page"]["border_last"] = plast
+        info.update(gen="sections", strategy="plain-empty", nsec=1, sec_rows=[0], pf=pf, pl=plast, user=[], top0=False,
+                    bf="single", bl="single", model=False)
+        return spec, info
+
+    @staticmethod
+    def sections_of(spec):
+        frames = spec["df"] if isinstance(spec["df"], list) else [spec["df"]]
+        bodies = spec["body"] if isinstance(spec["body"], list) else [spec.get("body") or {}] * len(frames)
+        return frames, bodies
+
     def oracle_multi(self, spec, info, ob):
+        """first-row, last-row and page-boundary clauses on a document given as a list of sections (also: on a 0-row
+        single frame).  The first / last clause come back as dicts (clause, msg, …): `known_filter` needs the clause."""
         fails = []
         pages, raws = ob["pages"], ob["_raw"]
+        frames, bodies = self.sections_of(spec)
+        starts, acc = [], 0
+        for f in frames:
+            starts.append(acc)
+            acc += len(f["rows"])
+        ends = [st + len(f["rows"]) - 1 for st, f in zip(starts, frames)]     # index of each section's last row
+
+        def section_of(r):
+            return max(i for i, st in enumerate(starts) if st <= r and len(frames[i]["rows"]) > 0)
         rowroles = ("colHeader", "data", "footnote", "source")
-        flat = [(pno, b, r) for pno, (bl, rb) in enumerate(zip(pages, raws), 1) for b, r in zip(bl, rb)
-                if b[0] in rowroles and (b[0] not in ("footnote", "source") or b[1])]
+        per_page = [[(b, r) for b, r in zip(bl, rb) if b[0] in rowroles and (b[0] not in ("footnote", "source") or b[1])]
+                    for bl, rb in zip(pages, raws)]
+        flat = [(pno, b, r) for pno, rows in enumerate(per_page, 1) for b, r in rows]
         if not flat:
             return fails
-        got = self.edges(flat[0][2], "t")
-        if any(x != code(info["pf"]) for x in got):
-            fails.append(f"top edge of the document's first table row ({flat[0][1]}) is {got}, rtf_page.border_first = {info['pf']}")
-        got = self.edges(flat[-1][2], "b")
-        if any(x != code(info["pl"]) for x in got):
-            fails.append(f"bottom edge of the document's last table row ({flat[-1][1]}) is {got}, rtf_page.border_last = {info['pl']}")
-        # the last data row of a non-final section, when the next section continues on the same page, is an interior
+        # (a) / (b): first and last table row of the document
+        # ('' on a header / component row leaves that component's own border setting in place: not judged)
+        _, fb, fr = flat[0]
+        got = self.edges(fr, "t")
+        if any(x != code(info["pf"]) for x in got) and not (info["pf"] == "" and fb[0] != "data"):
+            fails.append(dict(clause="first", role=fb[0], got=got,
+                              msg=f"top edge of the document's first table row ({fb}) is {got}, "
+                                  f"rtf_page.border_first = {info['pf']}"))
+        _, lb, lr = flat[-1]
+        got = self.edges(lr, "b")
+        if any(x != code(info["pl"]) for x in got) and not (info["pl"] == "" and lb[0] != "data"):
+            fails.append(dict(clause="last", role=lb[0], got=got,
+                              msg=f"bottom edge of the document's last table row ({lb}) is {got}, "
+                                  f"rtf_page.border_last = {info['pl']}"))
+        # (c) page boundaries: a break lies inside ONE section (sections follow each other without a break); the last
+        # table row before it carries that section's rtf_body.border_last, the first data row after it that section's
+        # rtf_body.border_first
+        for pno in range(2, len(per_page) + 1):
+            before, after = per_page[pno - 2], per_page[pno - 1]
+            data_after = [(b, r) for b, r in after if b[0] == "data"]
+            if not before or not data_after:
+                continue
+            fd_b, fd_r = data_after[0]
+            sec = section_of(fd_b[1])
+            if fd_b[1] == starts[sec]:
+                continue        # the break precedes a section's first row: not a boundary inside a table section
+            body = bodies[sec]
+            want = body.get("border_first", "single")
+            got = self.edges(fd_r, "t")
+            if any(x != code(want) for x in got):
+                fails.append(f"page {pno}: top edge of the first data row (row {fd_b[1]}, section {sec}) is {got}, that "
+                             f"section's rtf_body.border_first = {want}")
+            lb2, lr2 = before[-1]
+            want = body.get("border_last", "single")
+            got = self.edges(lr2, "b")
+            if lb2[0] == "colHeader" or (lb2[0] == "data" and section_of(lb2[1]) != sec):
+                continue
+            if any(x != code(want) for x in got) and not (want == "" and lb2[0] != "data"):
+                fails.append(f"page {pno - 1}: bottom edge of the last table row before the break ({lb2}, section {sec}) "
+                             f"is {got}, that section's rtf_body.border_last = {want}")
+        # (d) the last data row of a non-final section, when the next section continues on the same page, is an interior
         # row: its bottom edge is the user's border_bottom (none given → no border)
+        joint = {e for e, f in zip(ends[:-1], frames[:-1]) if f["rows"]}
+        if flat[-1][1][0] == "data":
+            joint.discard(flat[-1][1][1])      # it IS the document's last table row (only empty sections follow)
         for i, (pno, b, r) in enumerate(flat[:-1]):
-            if b[0] == "data" and b[1] in info["section_ends"][:-1]:
+            if b[0] == "data" and b[1] in joint:
                 npno, nb, _ = flat[i + 1]
                 if npno == pno and nb[0] in ("colHeader", "data"):
                     got = self.edges(r, "b")
                     if any(x is not None for x in got):
                         fails.append(f"page {pno}: row {b[1]} ends a non-final section and the next section continues on "
                                      f"the same page, but its bottom edge is {got}; the user's border_bottom is ''")
-        return fails[:4]
+        # (e) … and the first data row of a later section that follows a data row on the same page (no header row, no
+        # break between them) is an interior row as well: its top edge is the user's border_top (none given)
+        first_rows = {st for st, f in zip(starts[1:], frames[1:]) if f["rows"]}
+        if flat[0][1][0] == "data":
+            first_rows.discard(flat[0][1][1])  # it IS the document's first table row (only empty sections precede)
+        for i, (pno, b, r) in enumerate(flat):
+            if i > 0 and b[0] == "data" and b[1] in first_rows:
+                ppno, pb, _ = flat[i - 1]
+                if ppno == pno and pb[0] == "data":
+                    got = self.edges(r, "t")
+                    if any(x is not None for x in got):
+                        fails.append(f"page {pno}: row {b[1]} begins a later section right under the previous section's "
+                                     f"last data row, but its top edge is {got}; the user's border_top is ''")
+        return fails[:6]
 
     def gen(self, rng, k, tier):
+        if k >= self.nbase(tier):
+            return self.gen_sections(rng, k - self.nbase(tier))
         if k % 8 == 7:
             return self.gen_multi(rng, k // 8)
         fk = ["absent", "para", "table"][k % 3]
@@ -142,7 +318,7 @@ class C07(layfamily.Family):
         return [(d.borders.get(side) or {}).get("style") for d in rowblock.defs]
 
     def oracle(self, spec, info, ob):
-        if info["strategy"] == "multi":
+        if info["strategy"] in ("multi", "plain-empty"):
             return self.oracle_multi(spec, info, ob)
         fails = []
         pages, raws = ob["pages"], ob["_raw"]
@@ -225,6 +401,8 @@ class C07(layfamily.Family):
     def worker_extra(self, spec, info, ob):
         """BorderIn per page for the Lean model + the observed grids"""
         if info["strategy"] == "multi":
+            return self.worker_extra_sections(spec, info, ob)
+        if info["strategy"] == "plain-empty":
             return []
         cols = spec["df"]["cols"]
         disp = [cols.index(c) for c in info["displayed"]]
@@ -261,13 +439,85 @@ class C07(layfamily.Family):
             out.append(dict(req=bin_, top=obs_top, bottom=obs_bot, fn=fn_bot, src=src_bot, page=pno))
         return out
 
+    def worker_extra_sections(self, spec, info, ob):
+        """section list: one BorderIn per (section, page of that section) — the section is paginated on its own, its
+        page borders are what the model's `sectionDoc` leaves to section i of n (filled in by `model_corr`)"""
+        frames, bodies = self.sections_of(spec)
+        nsec = len(frames)
+        starts, acc = [], 0
+        for f in frames:
+            starts.append(acc)
+            acc += len(f["rows"])
+        page = spec.get("page") or {}
+        hdr = spec.get("headers", "default")
+
+        def has_headers(sec):
+            auto = bool(bodies[sec].get("as_colheader", True))
+            if hdr == "default":
+                hs = [dict(text=None)] if sec == 0 else []
+            elif hdr and isinstance(hdr[0], list):
+                hs = hdr[sec]
+            else:
+                hs = hdr if sec == 0 else []
+            return any(h is not None and (h.get("text") is not None or auto) for h in hs)
+
+        def shows(pl, first, last):
+            return pl == "all" or (pl == "first" and first) or (pl == "last" and last)
+
+        def comp_table(key, default_table, plkey, sec, first, last):
+            c = spec.get(key)
+            pl = page.get(plkey, "last")
+            if c is None or not c.get("text") or not c.get("as_table", default_table):
+                return False
+            if sec < nsec - 1 and pl == "last":
+                return False        # text suppressed on a non-last section
+            return shows(pl, first, last)
+        out = []
+        for sec, f in enumerate(frames):
+            n = len(f["rows"])
+            if n == 0:
+                continue
+            lo, hi = starts[sec], starts[sec] + n
+            spages = []     # per page of the section: (physical page number, [(position in page, block, raw)])
+            for pno, (blocks, rb) in enumerate(zip(ob["pages"], ob["_raw"]), 1):
+                rows = [(i, b, r) for i, (b, r) in enumerate(zip(blocks, rb)) if b[0] == "data" and lo <= b[1] < hi]
+                if rows:
+                    spages.append((pno, rows))
+            for q, (pno, rows) in enumerate(spages, 1):
+                first, last = q == 1, q == len(spages)
+                blocks, rb = ob["pages"][pno - 1], ob["_raw"][pno - 1]
+                fn_bot, src_bot = [], []
+                for b, r in list(zip(blocks, rb))[rows[-1][0] + 1:]:
+                    if b[0] in ("data", "colHeader"):
+                        break
+                    if b[0] == "footnote" and b[1] is True:
+                        fn_bot.append(self.edges(r, "b"))
+                    if b[0] == "source" and b[1] is True:
+                        src_bot.append(self.edges(r, "b"))
+                body = bodies[sec]
+                req = dict(isFirst=first, isLast=last, start=rows[0][1][1] - lo, height=len(rows), width=len(f["cols"]),
+                           top=[[""]], bottom=[[""]], bodyFirst=[[body.get("border_first", "single")]],
+                           bodyTopOrig=[[""]], bodyLast=[[body.get("border_last", "single")]], pageFirst=None,
+                           pageLast=None, hasHeaders=has_headers(sec),
+                           fnTableHere=comp_table("footnote", True, "page_footnote", sec, first, last),
+                           srcTableHere=comp_table("source", False, "page_source", sec, first, last))
+                out.append(dict(req=req, section=[nsec, sec, info["pf"], info["pl"]],
+                                top=[self.edges(r, "t") for _, _, r in rows], bottom=[self.edges(r, "b") for _, _, r in rows],
+                                fn=fn_bot, src=src_bot, page=f"{pno} (section {sec} of {nsec}, its page {q})"))
+        return out
+
     def project(self, pages, info):
         return [[b for b in p if b[0] in ("data", "footnote", "source", "colHeader")] for p in pages]
 
     def nontrivial(self, spec, info, ob):
         if len(ob["pages"]) >= 2:
             return [info["strategy"], info["header_mode"], info["footnote"], info["source"], str(info["placements"]),
-                    info["pf"], info["pl"], info["bf"], info["bl"], str(info["user"]), len(ob["pages"])]
+                    info["pf"], info["pl"], info["bf"], info["bl"], str(info["user"]), len(ob["pages"]),
+                    str(info.get("sec_rows"))]
+        if info.get("gen") == "sections" and (info["nsec"] == 1 or info["nsec"] >= 4 or min(info["sec_rows"]) <= 1):
+            # one page, but a section list of an edge length or with an edge-sized (0- / 1-row) section
+            return [info["strategy"], info["header_mode"], info["footnote"], info["source"], str(info["placements"]),
+                    info["pf"], info["pl"], info["bf"], info["bl"], str(info["sec_rows"])]
         return None
 
 
@@ -276,8 +526,15 @@ FAM = C07()
 
 def model_corr(res, outs):
     reqs, meta = [], []
+    # section lists: the page borders of section i of n come from the model of the section loop (sectionDoc)
+    keys = sorted({tuple(e["section"][k] for k in (0, 2, 3)) for o in outs for e in o.get("extra") or [] if "section" in e})
+    secb = dict(zip(keys, common.driver_batch([dict(op="section_borders", n=n, pageFirst=pf, pageLast=pl)
+                                               for n, pf, pl in keys]))) if keys else {}
     for o in outs:
         for e in o.get("extra") or []:
+            if "section" in e:
+                n, i, pf, pl = e["section"]
+                e["req"]["pageFirst"], e["req"]["pageLast"] = secb[(n, pf, pl)][i]
             reqs.append(dict(op="borders", **e["req"]))
             meta.append((o, e))
     drv = common.driver_batch(reqs)
@@ -296,23 +553,75 @@ def model_corr(res, outs):
                     res.disagree(case, f"page {e['page']}: model {key} = {d[key]} but the component's bottom edge is {obs[0]}")
 
 
+KID = "C07-empty-edge-section"
+KNOWN_TEXT = {
+    KID: "a document whose first / last section (or only frame) has 0 data rows: the page border is handed to the "
+         "section by its POSITION in the list and _apply_pagination_borders returns early on a 0-row page, so the "
+         "document's first table row misses rtf_page.border_first / its last table row misses rtf_page.border_last",
+}
+
+
+def known_filter(o, fails):
+    """explained-deviation function of the open known finding of C07 (DESIGN.md §5): suppresses exactly a failing
+    first-row clause on a document whose FIRST section has 0 data rows and a failing last-row clause on a document whose
+    LAST section has 0 data rows (the single 0-row frame is both); every other clause on those documents is judged."""
+    open_ids = {e["id"] for e in common.known_findings("C07")}
+    frames, _ = FAM.sections_of(o["spec"])
+    remaining, hits = [], []
+    for f in fails:
+        if not isinstance(f, dict):
+            remaining.append(f)
+            continue
+        edge = frames[0] if f["clause"] == "first" else frames[-1]
+        if KID in open_ids and len(edge["rows"]) == 0:
+            hits.append((KID, f"KNOWN-FINDING: property=C07 {KID}: {KNOWN_TEXT[KID]}"))
+        else:
+            remaining.append(f["msg"])
+    return remaining, hits
+
+
 def run(res, build):
     fam = FAM
-    jobs = [(fam, res.seed, k, res.tier, None) for k in range(fam.ndocs(res.tier))]
+    jobs = [(fam, res.seed, -1 - i, res.tier, c) for i, c in enumerate(fam.corpus())]
+    jobs += [(fam, res.seed, k, res.tier, None) for k in range(fam.ndocs(res.tier))]
     outs = common.pool_map(layfamily._worker, jobs, chunksize=4)
     for o in outs:
         if "machinery" in o:
             raise common.MachineryError("worker failed: " + o["machinery"])
+    known_lines = {}
     for o in outs:
         case = dict(spec=o["spec"], info=o["info"])
+        info = o["info"]
         nt = o.get("nt")
         res.case(case, tuple(nt) if isinstance(nt, list) else nt)
-        res.count("strategy:" + str(o["info"].get("strategy")))
-        res.count("header:" + str(o["info"].get("header_mode")))
-        res.count(f"fn:{o['info']['footnote']}/src:{o['info']['source']}")
+        res.count("strategy:" + str(info.get("strategy")))
+        res.count("header:" + str(info.get("header_mode")))
+        res.count(f"fn:{info['footnote']}/src:{info['source']}")
+        if info.get("strategy") in ("multi", "plain-empty"):
+            frames, _ = fam.sections_of(o["spec"])
+            rows = [len(f["rows"]) for f in frames]
+            res.count(f"sections:{min(len(frames), 6)}" + ("+" if len(frames) >= 6 else ""))
+            if isinstance(o["spec"]["df"], list) and len(frames) == 1:
+                res.count("sections:one-element list (df=[frame])")
+            if 0 in rows:
+                res.count("sections:has a 0-row section")
+            if rows[0] == 0 or rows[-1] == 0:
+                res.count("sections:0-row FIRST or LAST section (known finding " + KID + ")")
+            if 1 in rows:
+                res.count("sections:has a 1-row section")
+            if o["status"] == "ok":
+                kinds = {b[0] for pg in o["pages"] for b in pg if b[0] in ("footnote", "source") and b[1] is True}
+                if kinds:
+                    res.count("sections:table-rendered " + "+".join(sorted(kinds)))
+                if len(o["pages"]) >= 2:
+                    res.count("sections:page break inside a section")
         if o["status"] == "ok":
             res.count(f"pages:{min(len(o['pages']), 9)}")
-        for f in (o.get("fails") or [])[:1]:
+        fails, hits = known_filter(o, list(o.get("fails") or []))
+        for kid, line in hits:
+            res.known_hits[kid] = res.known_hits.get(kid, 0) + 1
+            known_lines.setdefault(kid, line)
+        for f in fails[:1]:
             res.fail(case, f)
     model_corr(res, [o for o in outs if o["status"] == "ok"])
     return common.finish(
@@ -320,8 +629,33 @@ def run(res, build):
         explanation="C07_first_page_no_header, C07_body_first(_default), C07_closing_style, "
                     "C07_closing_on_last_data_row, C07_closing_on_component, C07_other_edges, C07_top_untouched hold "
                     "for every well-formed page input. Header-row top border and the emission of the component "
-                    "override are observation-level clauses.")
+                    "override are observation-level clauses. Section lists: C07encm_page_borders / _first_only / "
+                    "_last_only / _one_section (the page borders go to the first / last section BY POSITION, for every "
+                    "list length from one up); C07encm_witness refutes the full statement for a list whose last "
+                    "section has no rows (known finding " + KID + ").",
+        known_lines=[known_lines[k] for k in sorted(known_lines)])
 
 
 def replay(payload):
+    case = payload.get("case") or {}
+    if "spec" in case:
+        o = common.pool_map(layfamily._worker, [(FAM, 0, 0, "quick", dict(spec=case["spec"], info=case["info"],
+                                                                        history=case.get("history")))] * 4)[0]
+        if "machinery" in o:
+            print(o["machinery"])
+            return 2
+        print("status:", o["status"])
+        import json
+        for i, p in enumerate(o.get("pages") or []):
+            print(f" page {i + 1}: {json.dumps(p)[:400]}")
+        fails, hits = known_filter(o, list(o.get("fails") or []))
+        for _, line in hits:
+            print(line)
+        for f in fails:
+            print("FAIL:", f)
+        if fails:
+            print("VIOLATION property=C07 replay=<given>")
+            return 1
+        print("property holds on this input" + (" (apart from listed known findings)" if hits else ""))
+        return 0
     return layfamily.replay_family(FAM, payload)
